@@ -25,17 +25,17 @@ type StressRun struct {
 	Ckpt *CasRef   `json:"ckpt"` // checkpoint document after the run
 }
 type StressLine struct {
-	K      string             `json:"k"`
-	Tr     int                `json:"tr"`
-	I      int                `json:"i"`
-	Mode   string             `json:"mode"`
-	Runs   []StressRun        `json:"runs"`
-	Live   []*CasRef          `json:"live"`   // what a live feed (running all along) received
-	Final  map[string]*CasRef `json:"final"`  // key -> CAS at the end
-	Commit []*CasRef          `json:"commit"` // CAS values in commit order (cas.new hook, under the bucket mutex)
-	Writes int                `json:"writes"`
-	Incrs   int `json:"incrs"`   // successful Incr calls (each by 1)
-	Counter int `json:"counter"` // final value of the counter (first Incr creates it with 1)
+	K       string             `json:"k"`
+	Tr      int                `json:"tr"`
+	I       int                `json:"i"`
+	Mode    string             `json:"mode"`
+	Runs    []StressRun        `json:"runs"`
+	Live    []*CasRef          `json:"live"`   // what a live feed (running all along) received
+	Final   map[string]*CasRef `json:"final"`  // key -> CAS at the end
+	Commit  []*CasRef          `json:"commit"` // CAS values in commit order (cas.new hook, under the bucket mutex)
+	Writes  int                `json:"writes"`
+	Incrs   int                `json:"incrs"`   // successful Incr calls (each by 1)
+	Counter int                `json:"counter"` // final value of the counter (first Incr creates it with 1)
 }
 
 func runStress(trNo int, mode, scratch string, seed int64, writers, perWriter, nkeys int) (*Trace, error) {
